@@ -682,7 +682,7 @@ def c04(ctx):
 
 
 # --------------------------------------------------------------------------- schemas
-NTYPES = 31
+NTYPES = 34
 
 
 def sg_cfg(mode, shard, nshards, mutevery):
@@ -720,7 +720,7 @@ def c08(ctx):
     ctx.absorb(ctx.vh_run(args, timeout=3000), args, label="schema/conforming")
     return ctx.finish(
         "model_checking",
-        rule="cases = every inhabitant (up to the value bound) of each of 31 types of the catalogue: every representation "
+        rule="cases = every inhabitant (up to the value bound) of each of 34 types of the catalogue: every representation "
              "strategy (struct map with renames / tuple / stringjoin / listpairs, union keyed / kinded / stringprefix, enum "
              "string / int, typed maps and lists), each nested in others, every optional / nullable / both combination; TLC "
              "checks FromRepr(ReprOf(tv)) = tv and FromType(Feed(tv)) = tv on the specification and emits (type, type-level "
@@ -743,7 +743,7 @@ def c09(ctx):
         "model_checking",
         rule="cases = every local mutation (dropped / duplicated / renamed-to-unknown / renamed-to-another-name / nulled / "
              "retyped / reordered / extra entry or element / wrong container / out-of-range scalar, at every position) of the "
-             "type-level input and of the representation of a hashed sample of the inhabitants of each of the 31 types; "
+             "type-level input and of the representation of a hashed sample of the inhabitants of each of the 34 types; "
              "FromType / FromRepr of Schema.tla give the verdict and, when accepted, the typed value; the harness feeds each "
              "tree to bindnode's builders under recover(): a panic, an acceptance of a non-conforming tree, a refusal of a "
              "conforming one or a node that does not read back as the specified typed value is a disagreement; "
